@@ -214,3 +214,9 @@ claim('C44', 'other',
       '(taken under the lock only when sent, returned under the same connection\'s lock only after a normal wait), derivation of every failure record from the '
       'future that failed (reaching definitions inside the loop), unconditional defunct+return for each record, decision facts of HeartbeatFuture.wait and its callback',
       'CFG dataflow with branch facts + lock regions + who-may-write + loop-local reaching definitions', _TB, 'DESIGN.md section 5 C44')
+
+claim('C45', 'other',
+      'static analysis: test-and-set latches of the three shutdown() methods, must-follow cascade after each latch, check-under-the-latch-lock rule at every site of '
+      'cluster.py that installs a fresh connection or pool into long-lived state (with close on the shut-down arm), consumer rule for every created connection '
+      '(installed through the guarded installer, returned, or closed in finally/except), refusal facts at the gates that start new work',
+      'lock regions + CFG dataflow with branch facts + who-may-write + consumer (must-close / must-hand-over) rule', _TB, 'DESIGN.md section 5 C45')
